@@ -138,4 +138,44 @@ def sigGo {α κ : Type} : Option (SubSig α) → List (Cmd α κ) → List (Sub
 
 def signature {α κ : Type} (cs : List (Cmd α κ)) : List (SubSig α) := sigGo none cs
 
+/-! ## Executable specification of the flattening verdict (L3)
+
+"Every sampled point of the curve is within distance r of the polyline." Polymorphic in the scalar:
+run at `Float` by the driver on the real code's output (`!` lines), reasoned about at an ordered field in
+`CanvasProofs` (soundness: verdict ok ⇒ for every sample there is a point of a polyline edge within r). -/
+section Spec
+variable {α : Type} [Add α] [Sub α] [Mul α] [Div α] [LT α] [LE α] [DecidableLT α] [DecidableLE α]
+  [OfNat α 0] [OfNat α 1]
+
+/-- parameter of the point of segment [a,b] nearest to p, clamped to [0,1] -/
+def footParam (p a b : Pt α) : α :=
+  let dx := b.x - a.x
+  let dy := b.y - a.y
+  let l2 := dx * dx + dy * dy
+  let t := if l2 ≤ 0 then 0 else ((p.x - a.x) * dx + (p.y - a.y) * dy) / l2
+  if t < 0 then 0 else if 1 < t then 1 else t
+
+/-- squared distance from p to the point of [a,b] at parameter t -/
+def distSqAt (p a b : Pt α) (t : α) : α :=
+  let ex := p.x - (a.x + t * (b.x - a.x))
+  let ey := p.y - (a.y + t * (b.y - a.y))
+  ex * ex + ey * ey
+
+def distSqPointSeg (p a b : Pt α) : α := distSqAt p a b (footParam p a b)
+
+/-- consecutive pairs of a polyline -/
+def edges {β : Type} : List β → List (β × β)
+  | a :: b :: rest => (a, b) :: edges (b :: rest)
+  | _ => []
+
+/-- is the sample within squared distance r2 of some edge of the polyline? -/
+def nearPolyline (r2 : α) (poly : List (Pt α)) (s : Pt α) : Bool :=
+  (edges poly).any fun e => decide (distSqPointSeg s e.1 e.2 ≤ r2)
+
+/-- the verdict: every sample is near the polyline -/
+def coveredBy (r2 : α) (samples poly : List (Pt α)) : Bool :=
+  samples.all (nearPolyline r2 poly)
+
+end Spec
+
 end Canvas.C03
